@@ -19,6 +19,7 @@ from .tape import Tape, run_seed
 
 VERIF = os.path.dirname(os.path.dirname(os.path.abspath(__file__)))
 KNOWN_PATH = os.path.join(VERIF, "known_findings.json")
+OUT = os.environ.get("VERIF_OUT") or VERIF  # scratch runs (mutants) write evidence/replays elsewhere
 
 
 class RunResult:
@@ -252,10 +253,10 @@ def _batch(pid: str, seed: int, start: int, count: int, deadline: float, known: 
 def write_replay(pid: str, seed: int, item: dict) -> str:
     prop = load_prop(pid)
     r = exec_tape(prop, values=item["tape"], keep_labels=True)
-    os.makedirs(os.path.join(VERIF, "replays"), exist_ok=True)
+    os.makedirs(os.path.join(OUT, "replays"), exist_ok=True)
     n = 0
     while True:
-        path = os.path.join(VERIF, "replays", f"{pid}-{seed}-{n}.json")
+        path = os.path.join(OUT, "replays", f"{pid}-{seed}-{n}.json")
         if not os.path.exists(path):
             break
         n += 1
@@ -428,8 +429,8 @@ def check(pid: str, tier: str, seed: int, budget_s: float | None, workers: int |
             print(f"KNOWN-FINDING: property={pid} {k['id']}: {k['what']} (seen in {n} runs of this batch)")
     wall = time.time() - t0
     ev = build_evidence(pid, prop, tier, seed, tot, wall, n_regress, viol_items, globals_found, harness_error)
-    os.makedirs(os.path.join(VERIF, "evidence"), exist_ok=True)
-    with open(os.path.join(VERIF, "evidence", f"{pid}.json"), "w") as f:
+    os.makedirs(os.path.join(OUT, "evidence"), exist_ok=True)
+    with open(os.path.join(OUT, "evidence", f"{pid}.json"), "w") as f:
         json.dump(ev, f, indent=1, default=str)
     rph = tot["runs"] / wall * 3600 if wall > 0 else 0
     print(f"{pid}: runs={tot['runs']} nontrivial={tot['nontrivial']} distinct_schedules={len(tot['sigs'])} "
